@@ -26,6 +26,12 @@ pub mod orf {
         /// stop codons (3 bytes each), a set disjoint from the start codons
         pub stops: Vec<B>,
         pub min_len: usize,
+        /// the codon *lists* handed to Finder::new name some codons more than once: for each fraction a copy
+        /// of the start (stop) codon it selects is appended (a list with repeats denotes the same set)
+        #[serde(default)]
+        pub dup_starts: Vec<u16>,
+        #[serde(default)]
+        pub dup_stops: Vec<u16>,
     }
 
     /// (start, end) of every frame: a start codon at `start`, `end` = one past the first
@@ -64,7 +70,8 @@ pub mod orf {
 
     fn show(c: &Case) -> String {
         let f = |v: &Vec<B>| v.iter().map(|c| lossy(c)).collect::<Vec<_>>().join(",");
-        format!("seq {:?} (len {}) starts {{{}}} stops {{{}}} min_len {}", lossy(&c.seq), c.seq.len(), f(&c.starts), f(&c.stops), c.min_len)
+        let rep = if c.dup_starts.is_empty() && c.dup_stops.is_empty() { String::new() } else { format!(" (codon lists with repeats: {} start / {} stop codons named twice)", c.dup_starts.len(), c.dup_stops.len()) };
+        format!("seq {:?} (len {}) starts {{{}}} stops {{{}}}{} min_len {}", lossy(&c.seq), c.seq.len(), f(&c.starts), f(&c.stops), rep, c.min_len)
     }
 
     pub fn check(c: &Case) -> R {
@@ -73,7 +80,17 @@ pub mod orf {
             fail!("harness: codon that is not 3 bytes long generated");
         };
         ensure!(!starts.iter().any(|s| stops.contains(s)), "harness: start and stop codon sets overlap");
-        let finder = Finder::new(starts.iter().collect(), stops.iter().collect(), c.min_len);
+        let with_repeats = |set: &Vec<[u8; 3]>, dups: &Vec<u16>| -> Vec<[u8; 3]> {
+            let mut l = set.clone();
+            if !set.is_empty() {
+                for &f in dups {
+                    l.push(set[idx(f, set.len() - 1)]);
+                }
+            }
+            l
+        };
+        let (start_list, stop_list) = (with_repeats(&starts, &c.dup_starts), with_repeats(&stops, &c.dup_stops));
+        let finder = Finder::new(start_list.iter().collect(), stop_list.iter().collect(), c.min_len);
         // more results than positions means duplicates or an iterator that does not end
         let cap = seq.len() + 2;
         let got: Vec<Orf> = finder.find_all(seq).take(cap).collect();
@@ -118,6 +135,8 @@ pub mod orf {
         pass.add_if(nested, "nested starts (same stop)");
         pass.add_if(must.iter().any(|a| must.iter().any(|b| a.0 % 3 == b.0 % 3 && a.1 < b.1)), "successive ORFs in one frame");
         pass.add_if(open > 0, "start codon without in-frame stop (not reported)");
+        pass.add_if(start_list.len() > starts.len() && !got.is_empty(), "start codon list names a codon twice, ORFs reported");
+        pass.add_if(stop_list.len() > stops.len() && !got.is_empty(), "stop codon list names a codon twice, ORFs reported");
         pass.add_if(c.starts.is_empty(), "empty start set");
         pass.add_if(c.stops.is_empty(), "empty stop set");
         pass.add_if(frames.iter().any(|f| f.1 - f.0 == c.min_len + 3), "frame length = min_len + 3 (shortest that must be reported)");
@@ -171,7 +190,7 @@ pub mod orf {
                 }
             }
         };
-        Case { seq: B(seq), starts: starts.iter().map(|c| B(c.to_vec())).collect(), stops: stops.iter().map(|c| B(c.to_vec())).collect(), min_len }
+        Case { seq: B(seq), starts: starts.iter().map(|c| B(c.to_vec())).collect(), stops: stops.iter().map(|c| B(c.to_vec())).collect(), min_len, dup_starts: Vec::new(), dup_stops: Vec::new() }
     }
 
     fn subset(of: &'static [&'static [u8; 3]], full: u32) -> BoxedStrategy<Vec<[u8; 3]>> {
@@ -270,7 +289,14 @@ pub mod orf {
     }
 
     pub fn strat(_t: Tier) -> BoxedStrategy<Case> {
-        prop_oneof![3 => bio(), 2 => general()].boxed()
+        let dups = || prop_oneof![3 => Just(Vec::new()), 1 => proptest::collection::vec(any::<u16>(), 1..=2)];
+        (prop_oneof![3 => bio(), 2 => general()], dups(), dups())
+            .prop_map(|(mut c, ds, dp)| {
+                c.dup_starts = ds;
+                c.dup_stops = dp;
+                c
+            })
+            .boxed()
     }
 
     fn all_strings(alpha: &[u8], len: usize) -> Vec<Vec<u8>> {
@@ -298,6 +324,8 @@ pub mod orf {
                         starts: starts.iter().map(|c| B(c.to_vec())).collect(),
                         stops: stops.iter().map(|c| B(c.to_vec())).collect(),
                         min_len: m,
+                        dup_starts: Vec::new(),
+                        dup_stops: Vec::new(),
                     })
                 })
             })
